@@ -131,4 +131,15 @@ def mapInt? : List Str → Except PyExc (List Int)
       | .error e => .error e
       | .ok ns => .ok (n :: ns)
 
+/-! ## sets of ints, unpacking -/
+
+/-- `a - b` on sets (the items of `a` not in `b`) -/
+def setDiff (a b : PyRt.Set Int) : PyRt.Set Int :=
+  (List.filter (fun x => !PyRt.Set.contains b x) (PyRt.Set.toList a) : List Int)
+
+/-- `x, y = l`: `ValueError` unless `l` has exactly two items -/
+def unpack2? {α : Type} : List α → Except PyExc (α × α)
+  | [x, y] => .ok (x, y)
+  | _ => .error PyExc.ValueError
+
 end PyRtC14
